@@ -107,7 +107,8 @@ def teardown():
 # {"kinds": [bool...], "root": bool, "ops": [...]}; kinds[0] is always False (the master's own tree).
 # ops: ["c", i, local, fault]  fault = -1 (none) or k;  ["u", i];  ["p", i, j, k]  j = -1: the master; k (optional) = -1: no stop revision,
 #      k >= 0: pull -r <k-th left-hand ancestor of the source tip>;
-#      ["b", i];  ["U", i]
+#      ["b", i];  ["U", i];  ["r", i, j]: checkout i's commit with checkout j's whole commit running just before
+#      i first write-locks the master (after i's unlocked comparison of the local and master tips)
 
 STD = [False, True, False]
 
@@ -140,6 +141,10 @@ def corpus():
         _case([False, True, True], True, [["c", 2, 1, -1], ["c", 2, 1, -1], ["c", 2, 1, -1], ["p", 1, 2, 1], ["c", 1, 0, -1], ["p", 1, 2, 0], ["p", 0, 2, 5]]),
         _case([False, True, True, False], True, [["c", 2, 1, -1], ["c", 2, 1, -1], ["p", 1, 2, 2], ["p", 1, 2, 1], ["p", 3, 2, 1], ["p", 1, -1, 1], ["u", 1], ["p", 1, 2, -1]]),
         _case([False, True, True], False, [["c", 2, 1, -1], ["c", 2, 1, -1], ["p", 1, 2, 1], ["p", 1, 2, 3], ["U", 1], ["p", 1, 2, 0]]),
+        # two committers: the other commit lands between the tip comparison and the master lock
+        _case([False, True, True], True, [["r", 1, 2], ["u", 1], ["r", 1, 0], ["u", 1], ["u", 0], ["c", 2, 1, -1], ["r", 1, 2], ["r", 2, 1]]),
+        _case(STD, True, [["r", 1, 2], ["r", 1, 2], ["u", 1], ["u", 2], ["r", 1, 2], ["U", 1], ["r", 1, 2], ["r", 1, 1]]),
+        _case([False, True, True, False], False, [["r", 2, 1], ["u", 2], ["r", 2, 3], ["r", 1, 2], ["u", 1], ["u", 2], ["r", 1, 2]]),
         _case([False, True, True], False, [["c", 1, 0, -1], ["c", 2, 0, -1], ["u", 2], ["c", 2, 1, -1], ["p", 1, 2], ["u", 0], ["c", 0, 0, -1]]),
     ]
 
@@ -174,6 +179,9 @@ def _gen_ops(rng, kinds, n):
                     if hs:
                         j = rng.choice(hs)
                 ops.append(["p", i, j, rng.choice([0, 1, 1, 2, 3]) if rng.random() < 0.45 else -1])
+        elif x < 0.96 and heavy:
+            i = rng.choice(heavy)
+            ops.append(["r", i, rng.choice([j for j in allc if j != i])])
         elif heavy:
             ops.append([rng.choice(["b", "U"]), rng.choice(heavy)])
         else:
@@ -184,7 +192,7 @@ def _gen_ops(rng, kinds, n):
 def cases(rng, tier):
     # exhaustive: every single operation and every pair (first op, second op) from a small alphabet
     alpha = [["c", 0, 0, -1], ["c", 1, 0, -1], ["c", 2, 0, -1], ["c", 1, 1, -1], ["c", 1, 0, 1], ["u", 1], ["u", 2],
-             ["p", 1, -1], ["p", 0, 1], ["p", 0, 1, 1], ["U", 1]]
+             ["p", 1, -1], ["p", 0, 1], ["p", 0, 1, 1], ["U", 1], ["r", 1, 2], ["r", 1, 0]]
     for root in (True, False):
         for a in alpha:
             yield _case(STD, root, [a])
@@ -301,12 +309,62 @@ def _stop_revision(src, k):
 EXPECTED = ("BoundBranchOutOfDate", "OutOfDateTree", "LocalRequiresBoundBranch", "DivergedBranches", "InjectedFault")
 
 
+@contextlib.contextmanager
+def _before_master_lock(master_base, fire):
+    """Run fire() once, just before the first write lock of the master taken inside the block."""
+    from breezy.bzr import branch as bb
+    orig = bb.BzrBranch.lock_write
+    armed = [True]
+
+    def lock_write(self, *args, **kwargs):
+        if armed[0] and self.base.rstrip("/") == master_base.rstrip("/"):
+            armed[0] = False
+            fire()
+        return orig(self, *args, **kwargs)
+
+    bb.BzrBranch.lock_write = lock_write
+    try:
+        yield
+    finally:
+        bb.BzrBranch.lock_write = orig
+
+
+def _do_race(base, op, nrev):
+    """Checkout op[1] commits; checkout op[2]'s whole commit runs at the race point.  Returns (status, ids used)."""
+    from breezy.branch import Branch
+    from breezy.commit import NullCommitReporter
+    from breezy.workingtree import WorkingTree
+    t = WorkingTree.open(_path(base, op[1]))
+    fired = []
+
+    def fire():
+        fired.append(_do(base, ["c", op[2], 0, -1], nrev + 1)[1])
+
+    heavy_other = t.branch.base.rstrip("/") != Branch.open(_path(base, 0)).base.rstrip("/") and op[1] != op[2]
+    try:
+        with (_before_master_lock(Branch.open(_path(base, 0)).base, fire) if heavy_other else contextlib.nullcontext()):
+            t.commit("m", rev_id=daglib.rid(nrev), allow_pointless=True, local=False,
+                     committer="t <t@example.com>", timestamp=1000000000.0 + nrev, timezone=0,
+                     reporter=NullCommitReporter())
+        st, created = Tag("ok"), 1
+    except Exception as e:
+        name = type(e).__name__
+        if name not in EXPECTED:
+            raise
+        st, created = Err(name), 0
+    if fired:
+        return st, 1 + fired[0]       # this commit's id is reserved whether or not it was used
+    return st, created
+
+
 def _do(base, op, nrev):
     """Run one operation; returns (status, revisions created)."""
     from breezy.branch import Branch
     from breezy.commit import NullCommitReporter
     from breezy.workingtree import WorkingTree
     kind = op[0]
+    if kind == "r":
+        return _do_race(base, op, nrev)
     t = WorkingTree.open(_path(base, op[1]))
     try:
         if kind == "c":
@@ -385,6 +443,8 @@ def _coq_op(op):
         return "Bind %d" % op[1]
     if k == "U":
         return "Unbind %d" % op[1]
+    if k == "r":
+        return "CommitRace %d %d" % (op[1], op[2])
     raise ValueError(op)
 
 
@@ -423,6 +483,32 @@ def oracle(inp, obs):
         heavy = kinds[i]
         b0, bound0, ps0 = cos0[i]
         b1, bound1, ps1 = cos1[i]
+        if op[0] == "r":
+            j = op[2]
+            if not (heavy and bound0 and b0[1] == m0[1] and i != j):
+                op = ["c", i, 0, -1]          # never reached the master lock: a plain commit, the other committer did nothing
+            else:
+                # i's id is reserved, then the other committer's revision
+                n_i = len(g)
+                g.append(list(ps0))
+                j_created = cos1[j][2] == [n_i + 1]
+                if j_created:
+                    g.append(list(cos0[j][2]))
+                if kinds[j] and not cos0[j][1]:
+                    clean = False             # the other committer's branch is not bound: its commit is local
+                if j_created and (not kinds[j] or cos0[j][1]) and cos1[j][0][1] == n_i + 1 and not _anc_opt(g, n_i + 1, m1[1]):
+                    return where + ("the other committer's revision %d, recorded in the master while this commit was between its "
+                                    "tip comparison and the master lock, is gone from the master's history (master %r)" % (n_i + 1, m1))
+                if j_created and (not kinds[j] or cos0[j][1]) and cos1[j][0][1] == n_i + 1 and st == Tag("ok"):
+                    return where + "the master moved before it was locked, yet the bound commit was not refused"
+                if _is_err(st) and (b1 != b0 or ps1 != ps0):
+                    return where + "refused commit changed its own checkout"
+                if st == Tag("ok") and (m1 != b1 or b1[1] != n_i or ps1 != [n_i]):
+                    return where + "successful bound commit: master %r, local %r, tree %r" % (m1, b1, ps1)
+                if not _anc_opt(g, m0[1], m1[1]):
+                    return where + "the master moved backwards: %r -> %r" % (m0, m1)
+                before = after
+                continue
         others_same = all(cos0[j] == cos1[j] for j in range(len(kinds)) if j != i and kinds[j]) and \
             all(cos0[j][2] == cos1[j][2] for j in range(len(kinds)) if j != i)
         if op[0] == "c":
